@@ -32,7 +32,7 @@ from audiolazy import (Stream, line, fadein, fadeout, attack, ones, zeros,
                        sin_table, saw_table, sinusoid, impulse,
                        karplus_strong, modulo_counter, resample)
 
-from vlib.inst import frac, drain
+from vlib.inst import frac, drain, take
 
 ID = "C19"
 
@@ -538,8 +538,25 @@ def run_table(ctx, case):
   kind = case[0]
   if kind == "table":
     _, tbl, cycles, freq, phase, n = case
-    tl = TableLookup(list(tbl)) if cycles is None else \
-         TableLookup(list(tbl), cycles)
+    if n % 3 == 0:
+      # the table is a settable attribute: an oscillator object that served
+      # another table (of another length) before is the oscillator of the
+      # table it holds now
+      other = (list(tbl) + [0.5, -0.25, 1])[:max(1, (len(tbl) + n) % 19)]
+      if len(other) == len(tbl):
+        other = other + [0.125]
+      tl = TableLookup(other) if cycles is None else TableLookup(other, cycles)
+      take(tl(0.3), 2)
+      tl[0.5]
+      tl.table = list(tbl)
+      ctx.count("table:reassigned-before-use")
+      if len(tl) != len(tbl):
+        ctx.violation("table/len-after-table-reassignment", case,
+                      got=len(tl), want=len(tbl))
+        return True
+    else:
+      tl = TableLookup(list(tbl)) if cycles is None else \
+           TableLookup(list(tbl), cycles)
     cyc = 1 if cycles is None else cycles
     otbl = tbl
     scale = float(max(1, max(abs(frac(v)) for v in tbl)))
@@ -582,7 +599,13 @@ def run_table(ctx, case):
 
 def run_getitem(ctx, case):
   _, tbl, idxs = case
-  tl = TableLookup(list(tbl))
+  if len(idxs) % 2:
+    tl = TableLookup(list(tbl))
+  else:
+    tl = TableLookup(list(tbl) + [7, 7])
+    tl[1.25]
+    tl.table = list(tbl)
+    ctx.count("getitem:table-reassigned-before-use")
   ft = [frac(v) for v in tbl]
   scale = float(max(1, max(abs(v) for v in ft)))
   for idx in idxs:
@@ -1278,6 +1301,8 @@ def finish(ctx):
   ctx.need("table:freq=0", 5)
   ctx.need("table:freq>pi", 20)
   ctx.need("table:size=1", 3)
+  ctx.need("table:reassigned-before-use", 50)
+  ctx.need("getitem:table-reassigned-before-use", 20)
   ctx.need("table:size=16", 3)
   ctx.need("table:samples", 5000)
   ctx.need("table:default_sin", 3)
